@@ -1,6 +1,7 @@
 import Syzgy.Lemmas.Scan
 import Syzgy.Lemmas.Crash
 import Syzgy.Lemmas.CrashColl
+import Syzgy.Lemmas.Opts
 /-!
 # C07 — crash between storage steps
 
@@ -179,5 +180,29 @@ theorem new_collection_invariants (name : Bytes) (opts : Cfg) (hq : Supported op
       CRep2 c segs (fun _ => none) ∧ SeqBelow c.sf.seq segs ∧
       docOf [] segs = some [{ id := 0, data := encodeOpts name opts }] :=
   new_collection_inv name opts hq hm hlen
+
+/-- **from creation, with nothing assumed about decoding**: create a collection (supported options, a name
+    without a double quote), run any history of document operations, start one more operation and let the
+    process die after any of its storage steps: reopening the file in a writable mode with *any* caller
+    options succeeds and yields a collection with the creation options that represents the store before
+    that operation or the store after it -/
+theorem created_collection_survives_crashes (name : Bytes) (opts : Cfg) (hq : Supported opts.quant)
+    (hm : opts.metric = 0 ∨ opts.metric = 1) (hlen : (encodeOpts name opts).length < 1000000000)
+    (hname : (34 : UInt8) ∉ name) (ops : List DocOp) (op : DocOp) :
+    ∃ c, newCollection none name opts .createIfNotExists = .ok c ∧
+      (DocFitsAllW c (fun _ => none) ops →
+       DocOpFits2 (ops.foldl applyDocOp c) (ops.foldl docSpec (fun _ => none)) op →
+       ∀ c1 m, docStep (ops.foldl applyDocOp c) op = .ok (c1, m) →
+       ∀ (opts' : Cfg) (mode : FileMode), mode = .readWrite ∨ mode = .createIfNotExists →
+       ∀ img ∈ m.images, ∃ c' segs', newCollection (some img.2) name opts' mode = .ok c' ∧ c'.cfg = opts ∧
+         (CRep2 c' segs' (ops.foldl docSpec (fun _ => none)) ∨
+          CRep2 c' segs' ((ops ++ [op]).foldl docSpec (fun _ => none)))) := by
+  obtain ⟨c, segs, h1, h2, h3, h4, h5⟩ := new_collection_inv name opts hq hm hlen
+  refine ⟨c, h1, ?_⟩
+  intro hf hop c1 m hstep opts' mode hmode img himg
+  obtain ⟨c', segs', e1, e2, _, e4⟩ := crash_after_any_doc_history ops c segs _ h3 h4 hf op hop name opts' mode hmode
+    (fun b _ => decodeOpts b) { id := 0, data := encodeOpts name opts } [] h5
+    (by rw [h2]; exact decodeOpts_encodeOpts name opts hname) (by rw [h2]; exact hm) c1 m hstep img himg
+  exact ⟨c', segs', e1, by rw [e2, h2], e4⟩
 
 end Syzgy.C07
